@@ -380,4 +380,66 @@ theorem resolve_year_negative (y qv rv : Int) (q r : Option Int) :
     · rw [if_pos hr, if_pos hr, if_pos hq]
     · rw [if_neg hr, if_neg hr]
 
+/-- reading a field back after a successful set: it holds the stored value, and the argument was in
+the setter's range -/
+theorem get_after_set (lo hi : Int) (get : Parsed → Option Int) (store : Int → Int)
+    (set : Parsed → Int → PRes Parsed) (upd : Parsed → Option Int → Parsed)
+    (hs : SetterSpec lo hi get store set upd) (hget : ∀ p f, get (upd p f) = f)
+    (p p1 : Parsed) (v : Int) (h : set p v = .ok p1) :
+    get p1 = some (store v) ∧ lo ≤ v ∧ v ≤ hi := by
+  obtain ⟨s1, s2, s3⟩ := hs p v
+  by_cases hin : lo ≤ v ∧ v ≤ hi
+  · by_cases hc : (get p = none ∨ get p = some (store v))
+    · rw [s2 hin hc] at h; cases h; exact ⟨hget _ _, hin⟩
+    · rw [s3 hin hc] at h; cases h
+  · rw [s1 hin] at h; cases h
+
+theorem get_after_set_all (p p1 : Parsed) (v : Int) :
+    (p.set_year v = .ok p1 → p1.year = some v) ∧
+    (p.set_year_div_100 v = .ok p1 → p1.year_div_100 = some v) ∧
+    (p.set_year_mod_100 v = .ok p1 → p1.year_mod_100 = some v) ∧
+    (p.set_isoyear v = .ok p1 → p1.isoyear = some v) ∧
+    (p.set_isoyear_div_100 v = .ok p1 → p1.isoyear_div_100 = some v) ∧
+    (p.set_isoyear_mod_100 v = .ok p1 → p1.isoyear_mod_100 = some v) ∧
+    (p.set_quarter v = .ok p1 → p1.quarter = some v) ∧
+    (p.set_month v = .ok p1 → p1.month = some v) ∧
+    (p.set_week_from_sun v = .ok p1 → p1.week_from_sun = some v) ∧
+    (p.set_week_from_mon v = .ok p1 → p1.week_from_mon = some v) ∧
+    (p.set_isoweek v = .ok p1 → p1.isoweek = some v) ∧
+    (p.set_ordinal v = .ok p1 → p1.ordinal = some v) ∧
+    (p.set_day v = .ok p1 → p1.day = some v) ∧
+    (p.set_hour12 v = .ok p1 → p1.hour_mod_12 = some (v % 12)) ∧
+    (p.set_minute v = .ok p1 → p1.minute = some v) ∧
+    (p.set_second v = .ok p1 → p1.second = some v) ∧
+    (p.set_nanosecond v = .ok p1 → p1.nanosecond = some v) ∧
+    (p.set_offset v = .ok p1 → p1.offset = some v) ∧
+    (p.set_timestamp v = .ok p1 → p1.timestamp = some v) ∧
+    (p.set_hour v = .ok p1 → p1.hour_div_12 = some (v / 12) ∧ p1.hour_mod_12 = some (v % 12)) := by
+  obtain ⟨a1, a2, a3, a4, a5, a6, a7, a8, a9, a10, a11, a12, a13, a14, a15, a16, a17, a18⟩ := setters_spec
+  refine ⟨fun h => (get_after_set _ _ _ _ _ _ a1 (fun _ _ => rfl) p p1 v h).1,
+    fun h => (get_after_set _ _ _ _ _ _ a2 (fun _ _ => rfl) p p1 v h).1,
+    fun h => (get_after_set _ _ _ _ _ _ a3 (fun _ _ => rfl) p p1 v h).1,
+    fun h => (get_after_set _ _ _ _ _ _ a4 (fun _ _ => rfl) p p1 v h).1,
+    fun h => (get_after_set _ _ _ _ _ _ a5 (fun _ _ => rfl) p p1 v h).1,
+    fun h => (get_after_set _ _ _ _ _ _ a6 (fun _ _ => rfl) p p1 v h).1,
+    fun h => (get_after_set _ _ _ _ _ _ a7 (fun _ _ => rfl) p p1 v h).1,
+    fun h => (get_after_set _ _ _ _ _ _ a8 (fun _ _ => rfl) p p1 v h).1,
+    fun h => (get_after_set _ _ _ _ _ _ a9 (fun _ _ => rfl) p p1 v h).1,
+    fun h => (get_after_set _ _ _ _ _ _ a10 (fun _ _ => rfl) p p1 v h).1,
+    fun h => (get_after_set _ _ _ _ _ _ a11 (fun _ _ => rfl) p p1 v h).1,
+    fun h => (get_after_set _ _ _ _ _ _ a12 (fun _ _ => rfl) p p1 v h).1,
+    fun h => (get_after_set _ _ _ _ _ _ a13 (fun _ _ => rfl) p p1 v h).1,
+    fun h => (get_after_set _ _ _ _ _ _ a14 (fun _ _ => rfl) p p1 v h).1,
+    fun h => (get_after_set _ _ _ _ _ _ a15 (fun _ _ => rfl) p p1 v h).1,
+    fun h => (get_after_set _ _ _ _ _ _ a16 (fun _ _ => rfl) p p1 v h).1,
+    fun h => (get_after_set _ _ _ _ _ _ a17 (fun _ _ => rfl) p p1 v h).1,
+    fun h => (get_after_set _ _ _ _ _ _ a18 (fun _ _ => rfl) p p1 v h).1,
+    fun h => ?_, fun h => ?_⟩
+  · obtain ⟨_, s2, s3⟩ := set_timestamp_spec p v
+    by_cases hc : p.timestamp = none ∨ p.timestamp = some v
+    · rw [s2 hc] at h; cases h; rfl
+    · rw [s3 hc] at h; cases h
+  · obtain ⟨_, _, _, rfl⟩ := (set_hour_spec p p1 v).2.mp h
+    exact ⟨rfl, rfl⟩
+
 end Chrono.Proofs.ParsedSetters
